@@ -4,6 +4,8 @@ import sys
 
 from common import load_corpus, Check, correspond, decode_result, call_impl, finish_proof_failures, text2j
 import evalgen as eg
+import gens
+import pipeline
 from c05 import dec_scores, impl_eval, eq_scores
 
 from wordseg import evaluate as ev
@@ -199,6 +201,16 @@ def main():
                     cases.append(case_summary(tr['text'], tr['gold'], fam))
                 if which != 'gold':
                     cases.append(case_labels(tr['text'], tr['units'], fam))
+    # the toolkit accepts its own output (coq/Pipeline/Proofs.v): the answers of the real segmenters against a gold
+    # that is another segmentation of the same units, with and without the prepared text as units text
+    for k in range(12 if ck.thorough else 4):
+        tu, _ = gens.random_text(rng, gens.ALPHABETS[['ascii1', 'prefixy', 'ipa'][k % 3]], nutts=rng.randint(1, 5))
+        prepared, outs = pipeline.segmenter_outputs(rng, tu)
+        pgold = pipeline.other_segmentation(tu)
+        for name, out in outs:
+            cases.append(case_evaluate(out, pgold, prepared, 'pipeline-' + name))
+            cases.append(case_evaluate(out, pgold, None, 'pipeline-' + name))
+            cases.append(case_summary(out, pgold, 'pipeline-' + name))
     for c in cases:
         ck.count('family:' + c['desc']['family'])
     correspond(ck, cases)
@@ -207,7 +219,7 @@ def main():
     return ck.finish(
         rule='%d consistent random triples (text, gold, units) and all their single-edit corruptions (drop/duplicate/swap utterance; '
              'drop/insert/substitute (a foreign character or one of the text\'s own) /transpose character and insert space at every position; sampled to %d per list) applied to text, gold, '
-             'units in turn, through evaluate (with and without units), summary and compute_class_labels; respaced and blank-line variants. '
+             'units in turn, through evaluate (with and without units), summary and compute_class_labels; respaced and blank-line variants; the answers of the real TP, PUDDLE and baseline segmenters scored against another segmentation of the same units (the toolkit accepts its own output). '
              'Expectation computed from the definition of consistency, not from how the case was built. Non-trivial = rejected input.'
              % (ntriples, per))
 
